@@ -41,8 +41,21 @@ PROPS["C15"] = {
 # ---- circuit-level properties share the `circuit` suite; each projects the fields it is about
 import re as _re
 def _fields(line, keys):
+    """projection of an output line on some fields; 'ev:run' keeps only run/fallback events of ev, 'ev:notif' only Opened/Closed"""
     kv = dict(t.split("=", 1) for t in line.split(" ") if "=" in t)
-    return " ".join("%s=%s" % (k, kv[k]) for k in keys if k in kv)
+    out = []
+    for k in keys:
+        base, _, sub = k.partition(":")
+        if base not in kv: continue
+        v = kv[base]
+        if sub and v != "-":
+            if sub in ("opened", "closed"):
+                keep = [e for e in v.split(";") if e.startswith(sub + "@")]
+            else:
+                keep = [e for e in v.split(";") if (e.startswith("run:") or e.startswith("fb:")) == (sub == "run")]
+            v = ";".join(keep) or "-"
+        out.append("%s=%s" % (k, v))
+    return " ".join(out)
 
 def circuit_proj(keys):
     return lambda line: _fields(line, keys)
@@ -77,19 +90,19 @@ def _circuit_prop(pid, keys, text):
                 "non-trivial = at least one control-plane op AND at least one of bad-request shape / timeout boundary / cancel during run / panic; distinct by FNV hash. Compared fields for this property: " + ",".join(keys) + ". " + text,
         "trusted_base": TB_CIRCUIT, "assumptions": ["sequential histories (one call at a time); schedules are covered separately where the property quantifies over them"]}
 
-_circuit_prop("C05", ["ev", "fan", "run", "fb"], "")
+_circuit_prop("C05", ["ev:run", "fan", "run", "fb"], "")
 _circuit_prop("C06", ["res", "run", "fb", "fbarg"], "")
-_circuit_prop("C01", ["res", "run", "fbarg", "ev", "open"], "")
-_circuit_prop("C08", ["res", "run", "fb", "seen", "ev", "open"], "")
-_circuit_prop("C12", ["ev", "rd"], "")
+_circuit_prop("C01", ["res", "run", "fbarg", "ev:run"], "")
+_circuit_prop("C08", ["res", "run", "fb"], "")
+_circuit_prop("C12", ["rd"], "")
 _circuit_prop("C07", ["seen", "after", "rel", "fbsame"], "")
-_circuit_prop("C10", ["res", "conc", "open", "ev"], "")
-_circuit_prop("C09", ["ev", "open", "fan"], "")
+_circuit_prop("C10", ["res", "conc"], "")
+_circuit_prop("C09", ["fan"], "")
 
 
 
 PROPS["C02"] = {
-    "components": [Seq("opener", 2500, 100000), CircuitSeq("C02", ["ev", "open"], 800, 30000)],
+    "components": [Seq("opener", 2500, 100000), CircuitSeq("C02", ["ev:opened"], 800, 30000)],
     "rule": "opener: event sequences on hystrix.Opener / ConsecutiveErrOpener with boundary-directed (errors, attempts, pct, volume): 60% exact-percentage boundaries 100*e = pct*a nudged by -1/0/+1, "
             "plus idle gaps, partial and full window roll-over, transitions, neutral kinds, live threshold changes, non-monotonic probes; non-trivial = at least one of those features; distinct by FNV hash. "
             "circuit: the shared circuit histories with the built-in openers (fields ev, open)",
@@ -101,7 +114,7 @@ def sig_c03(spec):
     return "F-C03-stale" if spec.startswith("!stale:") else None
 
 PROPS["C03"] = {
-    "components": [Seq("closer", 2500, 100000, signature=sig_c03), CircuitSeq("C03", ["run", "ev", "open"], 1500, 60000)],
+    "components": [Seq("closer", 2500, 100000, signature=sig_c03), CircuitSeq("C03", ["ev:closed"], 1500, 60000)],
     "rule": "closer: op sequences on hystrix.Closer (Opened/Closed, Allow with timestamps at the window end +-1 / stale / ahead, run events of all kinds, ShouldClose, timer callbacks incl. stale ones, live SleepWindow/HalfOpenAttempts/Required changes); "
             "non-trivial = a callback fired AND a transition AND an admission attempt at the window boundary or with a stale reading. circuit: shared circuit histories judged by the C03 book (sleep window, span bound, closing rule) when the closer is hystrix",
     "trusted_base": TB_CIRCUIT + ["timer callbacks as explicit environment steps (injected AfterFunc)"],
